@@ -132,7 +132,12 @@ def _div(a, b):
 
 
 H['<glam::DVec3 as std::ops::Add>::add'] = _vecop(lambda a, b: a + b)
-H['<glam::DVec3 as std::ops::Sub>::sub'] = _vecop(lambda a, b: a - b)
+def _sub(a, b):
+    nf.log_cancel(a, b, True)
+    return a - b
+
+
+H['<glam::DVec3 as std::ops::Sub>::sub'] = _vecop(_sub)
 H['<glam::DVec3 as std::ops::Mul>::mul'] = _vecop(lambda a, b: a * b)
 H['<glam::DVec3 as std::ops::Div>::div'] = _vecop(_div)
 H['<glam::DVec3 as std::ops::Mul<f64>>::mul'] = _vecop(lambda a, b: a * b)
